@@ -129,6 +129,21 @@ def make_hilbert(name, consts):
                 pre_includes=["stubs/numeric_size_t.h", "contracts/numeric.h", "stubs/algorithm.h"])
 
 
+# ---------------------------------------------------------------- array backend lookup
+ARRAYB = CORE + "backend/primitive/array.hpp"
+
+
+def fn_array_at():
+    return Fn("array_at", ARRAYB, ["struct array", "struct non_owning_data_t"], "at",
+              ret="OUT_VEC_T *", ptypes=["size_t"], method="const ARRAY_NO_T *self",
+              members=["m_size", "m_ptr"], byref_return=True,
+              must={"R11_member": 2, "R20_byref_return": 1})
+
+
+def make_array_at(name, consts):
+    return Unit(name, [fn_array_at()], "contracts/array_at.h", "lemmas/array_at.c")
+
+
 def get_unit(name, consts=None):
     """name is 'base' or 'base@k=v,k=v' for units whose extraction depends on template arguments."""
     if name in UNITS:
@@ -142,3 +157,4 @@ FACTORIES = {}
 FACTORIES["morton"] = make_morton
 FACTORIES["strided"] = make_strided
 FACTORIES["hilbert"] = make_hilbert
+FACTORIES["array_at"] = make_array_at
